@@ -31,17 +31,22 @@ func init() {
 		ty := ty
 		externals["sync/atomic.Load"+ty] = func(fr *frame, a []value) value {
 			fr.schedPoint("atomic")
+			fr.raceAcquire(a[0].(*value), "atomic")
 			return *a[0].(*value)
 		}
 		externals["sync/atomic.Store"+ty] = func(fr *frame, a []value) value {
 			fr.schedPoint("atomic")
 			fr.p.sched.visOps++
+			fr.raceAcquire(a[0].(*value), "atomic")
+			fr.raceRelease(a[0].(*value), "atomic")
 			*a[0].(*value) = a[1]
 			return nil
 		}
 		externals["sync/atomic.Swap"+ty] = func(fr *frame, a []value) value {
 			fr.schedPoint("atomic")
 			fr.p.sched.visOps++
+			fr.raceAcquire(a[0].(*value), "atomic")
+			fr.raceRelease(a[0].(*value), "atomic")
 			old := *a[0].(*value)
 			*a[0].(*value) = a[1]
 			return old
@@ -49,6 +54,8 @@ func init() {
 		externals["sync/atomic.CompareAndSwap"+ty] = func(fr *frame, a []value) value {
 			fr.schedPoint("atomic")
 			p := a[0].(*value)
+			fr.raceAcquire(p, "atomic")
+			fr.raceRelease(p, "atomic")
 			if fr.p.truth(fr.p.eqv(*p, a[1])) {
 				*p = a[2]
 				fr.p.sched.visOps++
@@ -60,6 +67,8 @@ func init() {
 			externals["sync/atomic.Add"+ty] = func(fr *frame, a []value) value {
 				fr.schedPoint("atomic")
 				p := a[0].(*value)
+				fr.raceAcquire(p, "atomic")
+				fr.raceRelease(p, "atomic")
 				xb, _, _, ok1 := concBits(*p)
 				yb, _, _, ok2 := concBits(a[1])
 				if !ok1 || !ok2 {
@@ -114,6 +123,7 @@ func extMutexLock(fr *frame, a []value) value {
 	fr.blockOn(func() bool { return (*st).(int32) == 0 }, "Mutex.Lock")
 	*st = int32(1)
 	fr.p.sched.visOps++
+	fr.raceAcquire(m, "w")
 	return nil
 }
 
@@ -124,6 +134,7 @@ func extMutexTryLock(fr *frame, a []value) value {
 	fr.schedPoint("trylock")
 	if (*st).(int32) == 0 {
 		*st = int32(1)
+		fr.raceAcquire(m, "w")
 		return true
 	}
 	return false
@@ -137,6 +148,7 @@ func extMutexUnlock(fr *frame, a []value) value {
 	if (*st).(int32) == 0 {
 		fr.fatal("fatal error: sync: unlock of unlocked mutex")
 	}
+	fr.raceRelease(m, "w")
 	*st = int32(0)
 	fr.p.sched.visOps++
 	return nil
@@ -159,6 +171,8 @@ func extRWLock(fr *frame, a []value) value {
 	*pend = (*pend).(uint32) - 1
 	*w = int32(1)
 	fr.p.sched.visOps++
+	fr.raceAcquire(m, "w")
+	fr.raceAcquire(m, "r")
 	return nil
 }
 
@@ -170,6 +184,7 @@ func extRWUnlock(fr *frame, a []value) value {
 	if (*w).(int32) == 0 {
 		fr.fatal("fatal error: sync: Unlock of unlocked RWMutex")
 	}
+	fr.raceRelease(m, "w")
 	*w = int32(0)
 	fr.p.sched.visOps++
 	return nil
@@ -183,6 +198,7 @@ func extRWRLock(fr *frame, a []value) value {
 	// writer preference: a pending writer blocks new readers
 	fr.blockOn(func() bool { return (*w).(int32) == 0 && (*pend).(uint32) == 0 }, "RWMutex.RLock")
 	*readers = (*readers).(int32) + 1
+	fr.raceAcquire(m, "w")
 	return nil
 }
 
@@ -194,6 +210,7 @@ func extRWRUnlock(fr *frame, a []value) value {
 	if (*readers).(int32) <= 0 {
 		fr.fatal("fatal error: sync: RUnlock of unlocked RWMutex")
 	}
+	fr.raceRelease(m, "r")
 	*readers = (*readers).(int32) - 1
 	return nil
 }
@@ -213,6 +230,9 @@ func extWGAdd(fr *frame, a []value) value {
 	}
 	*st = uint64(cur)
 	fr.p.sched.visOps++
+	if delta < 0 {
+		fr.raceRelease(m, "wg")
+	}
 	return nil
 }
 
@@ -222,6 +242,7 @@ func extWGWait(fr *frame, a []value) value {
 	st := fieldOf(m, fr.recvStruct(), "state", "v")
 	fr.schedPoint("wg.wait")
 	fr.blockOn(func() bool { return (*st).(uint64) == 0 }, "WaitGroup.Wait")
+	fr.raceAcquire(m, "wg")
 	return nil
 }
 
